@@ -14,6 +14,7 @@ import (
 type collH struct {
 	h   *h18
 	ms  colltypes.MsgServer
+	maxLock map[string]uint64 // coll|acct -> longest lock accepted since the contributor's last withdrawal
 	don map[string]*big.Int // oracle ledger: coll|acct|denom -> net amount moved to the donation account for this contributor
 }
 
@@ -187,6 +188,14 @@ func (c *collH) donate(t int64, who int, name string, lock uint64, don sdk.Dec, 
 	c.obs(name, who)
 	if out == "ok" {
 		c.track(name, who, b, a)
+		// the longest lock the contributor ever accepted: a later message must not shorten it
+		k := fmt.Sprintf("%s|%d", name, who)
+		if c.maxLock == nil {
+			c.maxLock = map[string]uint64{}
+		}
+		if lock > c.maxLock[k] {
+			c.maxLock[k] = lock
+		}
 	}
 	if !b.bal[who].IsEqual(a.bal[who]) {
 		h.r.Fail("C18/coll-donate/contributor-balance-changed", line, []string{line})
@@ -237,6 +246,10 @@ func (c *collH) withdraw(t int64, who int, name string, history []string) string
 			if cc.Locking > uint64(t) {
 				r.Fail("C18/coll-withdraw/before-lock", fmt.Sprintf("account %d withdrew at %d, lock until %d", who, t, cc.Locking), replay)
 			}
+			if ml := c.maxLock[fmt.Sprintf("%s|%d", name, who)]; ml > uint64(t) {
+				r.Fail("C18/coll-withdraw/before-lock", fmt.Sprintf("account %d withdrew at %d although it had locked its bonds until %d (the stored lock now says %d)", who, t, ml, cc.Locking), replay)
+			}
+			delete(c.maxLock, fmt.Sprintf("%s|%d", name, who))
 			for _, d := range c18Voc {
 				got := coinDelta(a.bal[who], b.bal[who], d)
 				want := sdk.Coins(cc.Bonds).AmountOf(d).BigInt()
@@ -435,7 +448,16 @@ func (h *h18) collScenarios() {
 			bs = append(bs, c18coin("ueth", int64(1+rnd.Intn(20))))
 			c.bond(who, "rc", bs)
 		case k < 65:
-			c.donate(t, who, "rc", uint64(t+int64(rnd.Intn(1000))-200), dec(dons[rnd.Intn(len(dons))]), rnd.Intn(8) == 0)
+			lock := uint64(t + int64(rnd.Intn(1000)) - 200)
+			switch rnd.Intn(8) {
+			case 0:
+				lock = 0 // the value an unset CLI flag sends: must not shorten a running lock
+			case 1:
+				lock = 1
+			case 2:
+				lock = uint64(t + 5000) // a long lock, so that the attempts to shorten it fall inside it
+			}
+			c.donate(t, who, "rc", lock, dec(dons[rnd.Intn(len(dons))]), rnd.Intn(8) == 0)
 		default:
 			c.withdraw(t, who, "rc", nil)
 		}
